@@ -81,7 +81,7 @@ EndRun == /\ started /\ l <= Len(TraceLog)
           /\ Cur.fin.bu = bytes["up"] /\ Cur.fin.bd = bytes["down"]      \* reported = delivered (CountsMatch, bound)
           /\ Cur.fin.ses = sessions
           /\ Cur.mode = "full" => (Cur.fin.ku = comp["up"] /\ Cur.fin.kd = comp["down"])
-          \* real Proxy run whose covert peer never closes and takes every byte: the station's writes to it
+          \* real Proxy run whose covert peer never closes and takes every byte, no client write fault: writes to it
           \* cannot have been refused, so everything the client's Reads returned must have been delivered
           /\ Cur.cvok => refused["up"] = 0
           /\ l' = l + 1 /\ started' = FALSE /\ ic' = 0 /\ iv' = 0 /\ Mark(l + 1)
